@@ -219,7 +219,7 @@ func genScenario(r *hx.Rng, id int, maxItems int) *Scenario {
 	sc.Txn = r.Bool()
 	sc.Pipe = r.Chance(25)
 	sc.Batch = 1 + r.Intn(3)
-	switch r.Intn(6) {
+	switch r.Intn(8) {
 	case 0:
 		sc.DbMap = map[int]int{1: 0}
 	case 1:
@@ -228,6 +228,12 @@ func genScenario(r *hx.Rng, id int, maxItems int) *Scenario {
 		sc.Black = []int{1}
 	case 3:
 		sc.TargetDb = 3
+	case 4:
+		// source and target numbers overlap: a swap, a rotation (the target db of one source db is the number
+		// of another source db)
+		sc.DbMap = map[int]int{0: 1, 1: 0}
+	case 5:
+		sc.DbMap = map[int]int{0: 1, 1: 2, 2: 0}
 	}
 	if r.Chance(30) {
 		// byte-limited batches: a few commands fill a batch, a long value overflows it on its own
@@ -871,6 +877,13 @@ func main() {
 			r := hx.NewRng(*seed*7_000_003 + uint64(ln))
 			for _, txn := range []bool{true, false} {
 				base := &Scenario{TargetDb: -1, Start: int64(100 + r.Intn(1000)), Ticks: map[int][]string{}, Txn: txn, Batch: 2, Desc: "shape"}
+				// every third shape under a db map whose source and target numbers overlap
+				switch ln % 6 {
+				case 1:
+					base.DbMap = map[int]int{0: 1, 1: 0}
+				case 4:
+					base.DbMap = map[int]int{0: 1, 1: 2, 2: 0}
+				}
 				itemsFromShape(r, sh.S, base)
 				s0 := clone(base)
 				s0.ID = nextID()
